@@ -578,3 +578,126 @@ def run(ctx):
             ctx.sample({'tag': tag, 'boxes': show_boxes(bs)[:6], 'query': [shw(v) for v in qs[0]],
                         'impl': first, 'tree_depth': depth})
     ctx.notes.append(f'timing: generate {t_gen - t_start:.1f}s, model (driver) {t_drv - t_gen:.1f}s, implementation+oracle {time.time() - t_drv:.1f}s; {len(cases)} box lists')
+    # ======== "sitecov" input stream - self-contained, implemented at the end of this file; keep this call last ========
+    _sitecov_tail(ctx)
+
+
+# ================================================================================================
+# "sitecov" input stream (harness/sitecov.py, DESIGN 3c): the class rtree.Index is instrumented as a whole (the
+# comparisons inside the four quadrant list comprehensions of __init__, the leaf test and the pruning test of
+# intersection - recursion stays inside the twin class); every site is driven to lhs == rhs and to either side -
+# separately for the first executions of each site in a call - by exact moves on one coordinate of one box or of the
+# query (Fractions, min <= max kept); the inputs found go through run() itself (real code, Lean model tree and query,
+# brute-force oracle, earlier-instance check) and are additionally counted under the path 'sitecov'.
+# Self-contained block at the end of the file on purpose (the body of `run` is untouched except for its last line).
+# ================================================================================================
+def _sitecov_plain_boxes(rng, kind='frac', nmax=5):
+    """boxes WITHOUT structure (no shared edges, duplicates, nesting, degenerate sides): random rationals"""
+    den = rng.choice([97, 1009, 10007])
+    if kind == 'int':
+        g = lambda: rng.randint(-10 ** 6, 10 ** 6)                      # noqa: E731
+    elif kind == 'float':
+        g = lambda: rng.uniform(-1000, 1000)                            # noqa: E731
+    else:
+        g = lambda: Fraction(rng.randint(-20 * den, 20 * den), den)      # noqa: E731
+    out = []
+    for j in range(rng.randint(1, max(1, min(nmax, 6)))):
+        x, y = sorted([g(), g()]), sorted([g(), g()])
+        out.append((j, (x[0], y[0], x[1], y[1])))
+    return out
+
+
+def _sitecov_plain_queries(rng, boxes, m, kind='frac'):
+    den = 1009
+    if kind == 'int':
+        g = lambda: rng.randint(-10 ** 6, 10 ** 6)                      # noqa: E731
+    elif kind == 'float':
+        g = lambda: rng.uniform(-1000, 1000)                            # noqa: E731
+    else:
+        g = lambda: Fraction(rng.randint(-22 * den, 22 * den), den)      # noqa: E731
+    qs = []
+    for _ in range(m):
+        x, y = sorted([g(), g()]), sorted([g(), g()])
+        qs.append((x[0], y[0], x[1], y[1]))
+    return qs
+
+
+def _sitecov_domain(a):
+    boxes, q = a
+    ok = lambda b: len(b) == 4 and all(type(v) in (int, Fraction) and abs(v) <= 10 ** 6 for v in b) and b[0] <= b[2] and b[1] <= b[3]   # noqa: E731
+    return ok(q) and all(type(i) is int and ok(b) for (i, b) in boxes)
+
+
+def _sitecov_adjust(args, path):
+    """keep min <= max: when one edge of a box / of the query is moved past the opposite edge, drag that edge along"""
+    boxes, q = args
+
+    def fix(b, m):
+        b = list(b)
+        if m < 2 and b[m] > b[m + 2]:
+            b[m + 2] = b[m]
+        elif m >= 2 and b[m] < b[m - 2]:
+            b[m - 2] = b[m]
+        return tuple(b)
+    if path[0] == 1:
+        return (boxes, fix(q, path[1]))
+    if len(path) == 4 and path[2] == 1:
+        boxes = list(boxes)
+        i, b = boxes[path[1]]
+        boxes[path[1]] = (i, fix(b, path[3]))
+    return (boxes, q)
+
+
+class _NoGrids:
+    """stands in for `itertools` during a nested pass: the exhaustive grid multisets are not rebuilt"""
+    @staticmethod
+    def combinations_with_replacement(*_a):
+        return []
+
+
+def _sitecov_rerun(ctx, cases):
+    from . import sitecov
+    payload = {'violations': [{'input': {'kind': 'frac', 'boxes': [[i, [str(Fraction(v)) for v in b]] for (i, b) in boxes],
+                                         'query': [str(Fraction(v)) for v in q]}} for (boxes, q) in cases]}
+    sitecov.rerun_patched(ctx, globals(), over={'scale': 0, 'tie_broken': True}, replay=payload,
+                          patches={'itertools': _NoGrids, 'pair_lists': lambda rng: []})
+
+
+def _sitecov_tail(ctx):
+    if getattr(ctx, '_in_sitecov', False) or getattr(ctx, '_only_main', False) or getattr(ctx, 'replay', None) \
+            or os.environ.get('SITECOV_OFF'):
+        return
+    from . import sitecov
+    from plotink import rtree
+    rng = ctx.rng
+    only = bool(os.environ.get('SITECOV_ONLY'))
+    seeds = []
+    while len(seeds) < 120:
+        if only:
+            bs = _sitecov_plain_boxes(rng)
+            q = _sitecov_plain_queries(rng, bs, 1)[0]
+        else:
+            bs = (gen_boxes(rng, 'frac', 5) if rng.random() < 0.6 else gen_on_center(rng, 4))[:5]
+            q = queries_for(rng, bs, 1, 'frac')[0]
+        seeds.append(([(i, tuple(Fraction(v) for v in b)) for (i, b) in bs], tuple(Fraction(v) for v in q)))
+    ids_fixed = lambda path, v: 'fixed' if (len(path) == 3 and path[0] == 0 and path[2] == 0) else None   # noqa: E731
+    sitecov.stream(ctx, 'rtree.Index', rtree.Index, seeds, rerun=lambda cs: _sitecov_rerun(ctx, cs),
+                   apply=lambda tw, a: tw.cls(list(a[0])).intersection(a[1]),
+                   moves=sitecov.Moves(kinds=ids_fixed, domain=_sitecov_domain, adjust=_sitecov_adjust,
+                                       groups=lambda path, v: 'xy'[path[-1] % 2]), budget=1400,
+                   max_inputs=250)
+
+
+if os.environ.get('SITECOV_ONLY'):
+    # EXPERIMENT ONLY (measures what the sitecov stream finds on its own): corpus, exhaustive grids, instance pairs,
+    # the structured box / on-centre / query generators and the huge-float range stream are disabled
+    import types as _types
+    from . import sitecov as _sc
+    _sc.only_mode(globals(), tail=_sitecov_tail, over={'tie_broken': True},
+                  patches={'itertools': _NoGrids, 'pair_lists': lambda rng: [], 'gen_boxes': _sitecov_plain_boxes,
+                           'gen_on_center': lambda rng, nmax: _sitecov_plain_boxes(rng, 'frac', nmax),
+                           'queries_for': _sitecov_plain_queries,
+                           'gen_huge': lambda rng: (lambda bs: (bs, _sitecov_plain_queries(rng, bs, 4, 'float')))(_sitecov_plain_boxes(rng, 'float')),
+                           'common': _types.SimpleNamespace(**{**vars(common), 'VERIF': '/nonexistent'})},
+                  note='corpus, exhaustive grid multisets, instance pairs and the structured box / on-centre / touching-query '
+                       'generators are disabled; inputs = unbiased random rational boxes and queries + the sitecov stream')
